@@ -1869,12 +1869,18 @@ PIP_Solution_Node::Tableau
         j_mismatch = j1.index();
         goto end_loop;
       }
+      ++j1;
     }
   }
 
  end_loop:
+  // NOTE: when a mismatch is found on a parameter column for which only
+  // one of the two rows has a stored element, the other iterator refers
+  // to a different column (or it is past-the-end): get the coefficients
+  // of column j_mismatch anew.
   return (j_mismatch != num_params)
-    && column_lower(s, mapping, basis, s_0, col_0, s_1, col_1, *j0, *j1);
+    && column_lower(s, mapping, basis, s_0, col_0, s_1, col_1,
+                    t_0.get(j_mismatch), t_1.get(j_mismatch));
 }
 
 void
